@@ -36,18 +36,37 @@ class Ctx:
         key = (module, "*" if getattr(self, "shared_rule_cache", False) else rep.prop, rep.tier)
         if key in self._rule_cache:
             return self._rule_cache[key]
+        cuts: Dict[str, set] = self.__dict__.setdefault("_rule_cuts", {})
+        cut_cache: Dict[Any, List[Tuple[frozenset, Any]]] = self.__dict__.setdefault("_rule_cut_cache", {})
+
+        def note_cut(cut_module: str) -> None:
+            # every module running above *cut_module* works with a result that lacks cut_module's contribution
+            for m in self._rule_stack[self._rule_stack.index(cut_module) + 1 :]:
+                self._rule_tainted.add(m)
+                cuts.setdefault(m, set()).add(cut_module)
+
         sub = Report(rep.prop, rep.tier)
         if module in self._rule_stack:
-            for m in self._rule_stack[self._rule_stack.index(module) + 1 :]:
-                self._rule_tainted.add(m)
+            note_cut(module)
             return sub
+        # a result computed under cuts is valid again whenever the same modules are (still) running further up: it is
+        # reused instead of being recomputed once per path through the adoption graph
+        on_stack = set(self._rule_stack)
+        for cut_set, cached in cut_cache.get(key, []):
+            if cut_set <= on_stack:
+                for m in cut_set:
+                    note_cut(m)
+                return cached
         self._rule_stack.append(module)
+        cuts[module] = set()
         try:
             importlib.import_module(f"sa.rules.{module}").run(self, sub)
         finally:
             self._rule_stack.pop()
-        if module in self._rule_tainted:
+        mine = cuts.pop(module, set())
+        if module in self._rule_tainted or mine:
             self._rule_tainted.discard(module)
+            cut_cache.setdefault(key, []).append((frozenset(mine), sub))
         else:
             self._rule_cache[key] = sub
         return sub
